@@ -6,6 +6,8 @@ import ast, ipaddress, json, os, sys, time
 
 REPO = os.environ.get("LUNAR_REPO", "/repo")
 VERIF = os.path.dirname(os.path.dirname(os.path.abspath(__file__)))
+# evidence/replay output directory (the thorough tier analyses scratch variants into a temp dir)
+OUT = os.environ.get("LUNAR_VERIF_OUT", VERIF)
 BASE = os.path.join(REPO, "interceptors/lunar-py-interceptor/lunar_interceptor/src/lunar_interceptor")
 FILES = {
     "fail_safe": "interceptor/fail_safe.py",
@@ -523,7 +525,7 @@ def main():
             o["verdict"] = "KNOWN-FINDING"
             o["detail"] = known[o["key"]]["what"] + " || " + o["detail"]
     obs.sort(key=lambda o: o["key"])
-    replay = os.path.join(VERIF, "evidence", "replay")
+    replay = os.path.join(OUT, "evidence", "replay")
     os.makedirs(replay, exist_ok=True)
     for f in os.listdir(replay):
         if f.startswith(PROP + "-"):
@@ -570,8 +572,8 @@ def main():
         "assumptions": ["verdict is a structural necessary condition, not the breaker's behaviour over event sequences", "no dynamic attribute access / monkey patching on the analysed paths"],
         "wall_s": time.time() - t0, "violations": nv + nu,
     }
-    os.makedirs(os.path.join(VERIF, "evidence"), exist_ok=True)
-    json.dump(ev, open(os.path.join(VERIF, "evidence", f"{PROP}.json"), "w"), indent=1)
+    os.makedirs(os.path.join(OUT, "evidence"), exist_ok=True)
+    json.dump(ev, open(os.path.join(OUT, "evidence", f"{PROP}.json"), "w"), indent=1)
     return 1 if nv + nu else 0
 
 
